@@ -58,7 +58,11 @@ type model struct {
 	NQuad     int
 	GroupTags []string
 	Lone      []string // members of incomplete groups (each a scalar of its own name)
-	Directed  string   // directed near-packed layout: which group, which pattern
+	// wide-row files: the exact token texts of the ascii rows (nil = rendered from the values)
+	VText, FText [][]string
+	PadForms     []string
+	Wide         *wideSpec
+	Directed     string // directed near-packed layout: which group, which pattern
 }
 
 func (m *model) hasList(kind string) int {
@@ -126,6 +130,7 @@ type genOpts struct {
 	// directed cases of the large phase
 	ForceV      int
 	ForceFormat string
+	Wide        *wideSpec
 }
 
 func drawStored(r *rand.Rand, typ string) float64 {
@@ -301,6 +306,27 @@ func genModel(r *rand.Rand, o genOpts) *model {
 		}
 		m.Verts[i] = row
 	}
+	if o.Wide != nil {
+		m.Wide = o.Wide
+		if r.Intn(6) != 0 {
+			m.Format = "ascii" // the other encodings have no rows; kept now and then as a control
+			m.BodyCRLF = m.HeaderNL == "\r\n" && r.Intn(2) == 0
+		}
+		if o.Wide.Kind == "vertex" {
+			widenVertexRows(r, m, o.Wide)
+			nv = len(m.Verts)
+		} else if nv == 0 {
+			nv = 3 + r.Intn(20)
+			m.Verts = make([][]float64, nv)
+			for i := range m.Verts {
+				row := make([]float64, len(m.VProps))
+				for j, p := range m.VProps {
+					row[j] = drawStored(r, p.Type)
+				}
+				m.Verts[i] = row
+			}
+		}
+	}
 
 	// --- faces
 	nf := 0
@@ -312,6 +338,10 @@ func genModel(r *rand.Rand, o genOpts) *model {
 				nf = 0 // a large cloud (with or without `element face 0`)
 			}
 		}
+	}
+	wideFaces := o.Wide != nil && o.Wide.Kind == "face"
+	if wideFaces {
+		nf = len(o.Wide.Widths)
 	}
 	m.HasFace = nf > 0 || r.Intn(2) == 0
 	if m.HasFace {
@@ -326,9 +356,12 @@ func genModel(r *rand.Rand, o genOpts) *model {
 			t.CountSpelled, t.ItemSpelled = spell(r, t.CountType, &m.NAlias), spell(r, "float", &m.NAlias)
 			m.Lists = append(m.Lists, t)
 		}
-		if r.Intn(10) == 0 {
+		if r.Intn(10) == 0 || wideFaces {
 			e := faceList{Kind: "extra", Name: []string{"flags_list", "neighbours", "weights"}[r.Intn(3)]}
 			e.CountType = []string{"uchar", "int", "uint"}[r.Intn(3)]
+			if wideFaces {
+				e.CountType = []string{"int", "uint"}[r.Intn(2)] // thousands of entries
+			}
 			e.ItemType = []string{"int", "uint", "float"}[r.Intn(3)]
 			e.CountSpelled, e.ItemSpelled = spell(r, e.CountType, &m.NAlias), spell(r, e.ItemType, &m.NAlias)
 			m.Lists = append(m.Lists, e)
@@ -368,6 +401,10 @@ func genModel(r *rand.Rand, o genOpts) *model {
 				m.FaceEx = append(m.FaceEx, ex)
 			}
 		}
+	}
+
+	if wideFaces {
+		widenFaceRows(r, m, o.Wide)
 	}
 
 	// --- comment / obj_info lines anywhere after the format line
